@@ -1,3 +1,299 @@
-/- C17: property theorems (none yet). -/
+/-
+C17 — Read-only mounts cannot be modified by the guest.
+
+Property theorems. The flag decision of `(*ReadFS).OpenFile`, WASI `openFlags`, the `Oflag` constants and the
+method tables of `ReadFS`/`readFile`/`AdaptFS`/`fsFile` are the definitions regenerated from the wazero
+checkout (`Wz.Gen.ReadFS`); the hand-written part (`Wz.Model.ReadFS`) is the classification of mutating
+methods, the interpretation of the tables and the over-approximated request lists of the WASI functions.
+
+OS assumption (not proved): `open` with a word satisfying `readOnlyFlag`, and the non-mutating methods on the
+resulting descriptor, do not change the tree.
+-/
+import Wz.Model.ReadFS
+
 namespace Wz.C17
+open Wz.Gen.ReadFS Wz.Model.ReadFS
+
+/-! ## The flag decision over the whole 32-bit Oflag space -/
+
+theorem accMask_eq : accMask = 3#32 := by decide
+theorem creatTrunc_eq : creatTrunc = 4112#32 := by decide
+
+/-- `readOnlyFlag` in terms of the two masked words the code looks at. -/
+theorem readOnlyFlag_iff (f : BitVec 32) :
+    readOnlyFlag f = true ↔ (f &&& 3#32 = 0#32 ∧ f &&& 4112#32 = 0#32) := by
+  unfold readOnlyFlag
+  rw [accMask_eq, creatTrunc_eq]
+  simp [O_RDONLY]
+
+/-- **readfs_open_passes_only_readonly** (full strength, every 32-bit flag word, not only the 13 declared bits):
+whenever `ReadFS.OpenFile` calls the wrapped FS, it passes the caller's word unchanged and that word is
+read-only: access mode `O_RDONLY`, neither `O_CREAT` nor `O_TRUNC`.
+False on the tree without the F18 repair (see `asis_*_witness`). -/
+theorem readfs_open_passes_only_readonly (flag f : BitVec 32) (h : ReadFS_OpenFile flag = .ok f) :
+    f = flag ∧ readOnlyFlag f = true := by
+  unfold ReadFS_OpenFile at h
+  repeat' split at h
+  all_goals first
+    | (simp at h; done)
+    | (simp only [Except.ok.injEq] at h
+       subst h
+       refine ⟨rfl, ?_⟩
+       rw [readOnlyFlag_iff]
+       simp_all)
+
+/-- Reading keeps working: a read-only word is never refused and is passed on unchanged. -/
+theorem readonly_open_delegated_unchanged (flag : BitVec 32) (h : readOnlyFlag flag = true) :
+    ReadFS_OpenFile flag = .ok flag := by
+  rw [readOnlyFlag_iff] at h
+  unfold ReadFS_OpenFile
+  simp [h.1, h.2]
+
+/-- The two together: the wrapped FS is reached exactly for the read-only words. -/
+theorem readfs_open_delegates_iff (flag : BitVec 32) :
+    (∃ f, ReadFS_OpenFile flag = .ok f) ↔ readOnlyFlag flag = true := by
+  constructor
+  · rintro ⟨f, h⟩
+    have := readfs_open_passes_only_readonly flag f h
+    rw [← this.1]; exact this.2
+  · intro h; exact ⟨flag, readonly_open_delegated_unchanged flag h⟩
+
+/-- non-vacuity: plain `O_RDONLY`, and `O_RDONLY|O_DIRECTORY|O_NOFOLLOW`, are delegated. -/
+example : ReadFS_OpenFile O_RDONLY = .ok O_RDONLY := by decide
+example : ReadFS_OpenFile (O_DIRECTORY ||| O_NOFOLLOW) = .ok (O_DIRECTORY ||| O_NOFOLLOW) := by decide
+
+/-- The regenerated decision is, for every word and including the errno values, the repaired variant. -/
+theorem gen_is_repaired (flag : BitVec 32) : ReadFS_OpenFile flag = repairedOpenFile flag := by
+  unfold ReadFS_OpenFile repairedOpenFile
+  rw [accMask_eq, creatTrunc_eq]
+  simp [O_RDONLY, O_WRONLY, O_RDWR, O_DIRECTORY, EISDIR, ENOSYS, EROFS]
+
+/-- Every refusal carries a non-zero errno (a refusal is never mistaken for success). -/
+theorem readfs_open_refusal_nonzero (flag : BitVec 32) (e : Nat) (h : ReadFS_OpenFile flag = .error e) : e ≠ 0 := by
+  unfold ReadFS_OpenFile at h
+  repeat' split at h
+  all_goals first
+    | (simp at h; done)
+    | (simp only [Except.error.injEq] at h; omega)
+
+/-! ### Finding F18: the decision as it is on the pinned tree -/
+
+/-- Witness 1: `O_CREAT|O_RDONLY` reaches the wrapped FS (the host file is created). -/
+theorem asis_creat_witness :
+    asIsOpenFile (O_CREAT ||| O_RDONLY) = .ok (O_CREAT ||| O_RDONLY) ∧ readOnlyFlag (O_CREAT ||| O_RDONLY) = false := by decide
+/-- Witness 2: `O_TRUNC|O_RDONLY` reaches the wrapped FS (the host file is emptied). -/
+theorem asis_trunc_witness :
+    asIsOpenFile (O_TRUNC ||| O_RDONLY) = .ok (O_TRUNC ||| O_RDONLY) ∧ readOnlyFlag (O_TRUNC ||| O_RDONLY) = false := by decide
+/-- Witness 3: the access-mode value 3 (`O_RDWR|O_WRONLY`) passes the check. -/
+theorem asis_accmode3_witness :
+    asIsOpenFile (O_RDWR ||| O_WRONLY) = .ok (O_RDWR ||| O_WRONLY) ∧ readOnlyFlag (O_RDWR ||| O_WRONLY) = false := by decide
+/-- Through WASI: `path_open(oflags=CREAT, rights=FD_READ)` on the as-is wrapper is delegated with `O_CREAT`. -/
+theorem asis_wasi_creat_witness :
+    pathOpen asIsOpenFile WASI_LOOKUP_SYMLINK_FOLLOW WASI_O_CREAT 0#16 WASI_RIGHT_FD_READ = .delegated O_CREAT := by decide
+/-- … and `path_open(oflags=TRUNC, rights=FD_READ)` is delegated with `O_TRUNC`. -/
+theorem asis_wasi_trunc_witness :
+    pathOpen asIsOpenFile WASI_LOOKUP_SYMLINK_FOLLOW WASI_O_TRUNC 0#16 WASI_RIGHT_FD_READ = .delegated O_TRUNC := by decide
+
+/-- What does hold for the as-is decision (the full statement is `readfs_open_passes_only_readonly`;
+missing: `O_CREAT`/`O_TRUNC` clear and access mode ≠ 3): a delegated word is unchanged and its access mode
+is neither `O_WRONLY` nor `O_RDWR`. -/
+theorem asis_open_partial (flag f : BitVec 32) (h : asIsOpenFile flag = .ok f) :
+    f = flag ∧ f &&& accMask ≠ O_WRONLY ∧ f &&& accMask ≠ O_RDWR := by
+  unfold asIsOpenFile at h
+  repeat' split at h
+  all_goals first
+    | (simp at h; done)
+    | (simp only [Except.ok.injEq] at h
+       subst h
+       simp_all)
+
+/-! ## The method tables -/
+
+theorem fsMethod_all_complete (m : FSMethod) : m ∈ FSMethod.all := by cases m <;> decide
+theorem fileMethod_all_complete (m : FileMethod) : m ∈ FileMethod.all := by cases m <;> decide
+
+/-- Every method of the regenerated interfaces is classified, exactly once (`OpenFile` by its flags).
+A method added to `experimental/sys.FS` or `experimental/sys.File` breaks this obligation until it is classified. -/
+theorem all_methods_classified :
+    (∀ m : FSMethod, m = .OpenFile ∨ (mutatingFS.contains m != nonMutatingFS.contains m) = true) ∧
+    (∀ m : FileMethod, (mutatingFile.contains m != nonMutatingFile.contains m) = true) ∧
+    mutatingFS.contains .OpenFile = false ∧ nonMutatingFS.contains .OpenFile = false := by
+  refine ⟨fun m => ?_, fun m => ?_, by decide, by decide⟩
+  · cases m <;> decide
+  · cases m <;> decide
+
+/-- An override refuses: it returns a non-zero errno and can only call non-mutating methods of the wrapped value. -/
+def refusing {M : Type} (nonMut : M → Bool) : Override M → Bool
+  | .constErrno e => e != 0
+  | .refuses calls => calls.all nonMut
+  | _ => false
+
+/-- **mutating_methods_refused** (decided over the regenerated tables): every mutating method of `sys.FS` is
+overridden by `ReadFS`, and every mutating method of `sys.File` by `readFile`, with a body that returns a non-zero
+errno and delegates nothing mutating; and `OpenFile` still wraps its result in `readFile`. -/
+theorem mutating_methods_refused :
+    (∀ m ∈ mutatingFS, refusing (nonMutatingFS.contains ·) (readFSTable m) = true) ∧
+    (∀ m ∈ mutatingFile, refusing (nonMutatingFile.contains ·) (readFileTable m) = true) ∧
+    ReadFS_OpenFile_wrapsInReadFile = true := by decide
+
+/-- The errno values are the ones the property names: `EROFS` at the FS level, `EBADF`/`EISDIR` at the file level. -/
+theorem mutating_methods_errno :
+    (∀ m ∈ mutatingFS, readFSTable m = .constErrno EROFS) ∧
+    readFileTable .Utimens = .constErrno EBADF := by decide
+
+/-- Reading keeps working: the read-only wrapper does not stand between the guest and the non-mutating
+methods (they are inherited, i.e. run on the wrapped value unchanged). -/
+theorem reads_pass_through :
+    (∀ m ∈ nonMutatingFS, ∀ fl, serve (.fs m fl) = [.fs m]) ∧
+    (∀ m ∈ [FileMethod.Read, .Pread, .Seek, .Readdir, .Stat, .IsDir, .Close], serve (.file m) = [.file m]) := by
+  refine ⟨?_, by decide⟩
+  intro m hm fl
+  cases m <;> first | rfl | (exact absurd hm (by decide))
+
+/-- For every method but `OpenFile` the flag argument of a request is ignored. -/
+theorem serve_fs_flag_irrelevant (m : FSMethod) (fl : BitVec 32) (h : m ≠ .OpenFile) :
+    serve (.fs m fl) = serve (.fs m 0#32) := by
+  cases m <;> first | rfl | exact absurd rfl h
+
+/-- Every request on the read-only mount, whatever it is, reaches the wrapped FS only with non-mutating calls. -/
+theorem serve_nonMutating (r : Req) : ∀ c ∈ serve r, c.nonMutating = true := by
+  cases r with
+  | file m => cases m <;> decide
+  | fs m fl =>
+    cases m
+    case OpenFile =>
+      intro c hc
+      have hs : serve (.fs .OpenFile fl) = openVia ReadFS_OpenFile fl := rfl
+      rw [hs] at hc
+      unfold openVia at hc
+      split at hc
+      · simp at hc
+      · rename_i f hf
+        simp only [List.mem_singleton] at hc
+        subst hc
+        exact (readfs_open_passes_only_readonly fl f hf).2
+    all_goals (rw [serve_fs_flag_irrelevant _ fl (by decide)]; decide)
+
+/-! ## WASI `path_open` -/
+
+/-- **wasi_open_readonly**: for all dirflags, oflags, fdflags and rights, if `path_open` on a read-only mount
+reaches the wrapped FS, the flag word it passes is read-only. -/
+theorem wasi_open_readonly (d o f : BitVec 16) (r fl : BitVec 32)
+    (h : pathOpen ReadFS_OpenFile d o f r = .delegated fl) : readOnlyFlag fl = true := by
+  unfold pathOpen at h
+  simp only at h
+  split at h
+  · simp at h
+  · split at h
+    · simp at h
+    · rename_i g hg
+      simp only [OpenOutcome.delegated.injEq] at h
+      subst h
+      exact (readfs_open_passes_only_readonly _ _ hg).2
+
+/-- non-vacuity: a plain read open (`rights = FD_READ`, no oflags) is delegated, with `O_RDONLY`. -/
+example : pathOpen ReadFS_OpenFile WASI_LOOKUP_SYMLINK_FOLLOW 0#16 0#16 WASI_RIGHT_FD_READ = .delegated O_RDONLY := by decide
+/-- and a directory open without symlink-follow as well. -/
+example : pathOpen ReadFS_OpenFile 0#16 WASI_O_DIRECTORY 0#16 0#32 = .delegated (O_DIRECTORY ||| O_NOFOLLOW) := by decide
+/-- while create, truncate and write requests are refused (test on samples; the theorem above is the proof). -/
+example : pathOpen ReadFS_OpenFile 1#16 WASI_O_CREAT 0#16 WASI_RIGHT_FD_READ = .refused EROFS := by decide
+example : pathOpen ReadFS_OpenFile 1#16 WASI_O_TRUNC 0#16 WASI_RIGHT_FD_READ = .refused EROFS := by decide
+example : pathOpen ReadFS_OpenFile 1#16 0#16 0#16 WASI_RIGHT_FD_WRITE = .refused ENOSYS := by decide
+
+/-! ### Reading keeps working through `path_open` -/
+
+theorem and66_of (r : BitVec 32) (hw : r &&& 64#32 = 0#32) : r &&& 66#32 ≠ 66#32 := by
+  intro h
+  have : (r &&& 66#32) &&& 64#32 = 64#32 := by rw [h]; decide
+  rw [BitVec.and_assoc] at this
+  have h2 : (66#32 &&& 64#32) = 64#32 := by decide
+  rw [h2, hw] at this
+  exact absurd this (by decide)
+
+/-- For every dirflags, every fdflags (append, nonblock, sync bits …) and every oflags without CREAT and TRUNC:
+with the right FD_READ and without FD_WRITE, `openFlags` yields a read-only word. -/
+theorem openFlags_read_is_readonly (d o f : BitVec 16) (r : BitVec 32)
+    (hc : o &&& WASI_O_CREAT = 0#16) (ht : o &&& WASI_O_TRUNC = 0#16)
+    (hw : r &&& WASI_RIGHT_FD_WRITE = 0#32) (hr : r &&& WASI_RIGHT_FD_READ = WASI_RIGHT_FD_READ) :
+    readOnlyFlag (openFlags d o f r) = true := by
+  unfold WASI_O_CREAT at hc
+  unfold WASI_O_TRUNC at ht
+  unfold WASI_RIGHT_FD_WRITE at hw
+  unfold WASI_RIGHT_FD_READ at hr
+  have h66 : (r &&& 66#32 == 66#32) = false := by simpa using and66_of r hw
+  rw [readOnlyFlag_iff]
+  unfold openFlags
+  rw [hc, ht, hw, hr, h66]
+  generalize (d &&& 1#16 == 0#16) = b1
+  generalize (o &&& 2#16 != 0#16) = b2
+  generalize (o &&& 4#16 != 0#16) = b3
+  generalize (f &&& 4#16 != 0#16) = b4
+  generalize (f &&& 1#16 != 0#16) = b5
+  generalize (f &&& 2#16 != 0#16) = b6
+  generalize (f &&& 8#16 != 0#16) = b7
+  generalize (f &&& 16#16 != 0#16) = b8
+  revert b1 b2 b3 b4 b5 b6 b7 b8
+  decide
+
+/-- **wasi_read_open_delegated**: the read-only mount never stands in the way of a read: for all dirflags and
+fdflags, `path_open` with FD_READ, without FD_WRITE, without CREAT/TRUNC is passed to the wrapped FS (with the
+word `openFlags` computed, unchanged). -/
+theorem wasi_read_open_delegated (d o f : BitVec 16) (r : BitVec 32)
+    (hc : o &&& WASI_O_CREAT = 0#16) (ht : o &&& WASI_O_TRUNC = 0#16)
+    (hw : r &&& WASI_RIGHT_FD_WRITE = 0#32) (hr : r &&& WASI_RIGHT_FD_READ = WASI_RIGHT_FD_READ) :
+    pathOpen ReadFS_OpenFile d o f r = .delegated (openFlags d o f r) := by
+  have h := readonly_open_delegated_unchanged _ (openFlags_read_is_readonly d o f r hc ht hw hr)
+  unfold pathOpen
+  simp only [hc, h]
+  simp
+
+/-- non-vacuity: FD_READ with `O_DIRECTORY`, `FD_APPEND|FD_NONBLOCK` meets the hypotheses. -/
+example : (2#16 : BitVec 16) &&& WASI_O_CREAT = 0#16 ∧ (2#16 : BitVec 16) &&& WASI_O_TRUNC = 0#16 ∧
+    (2#32 : BitVec 32) &&& WASI_RIGHT_FD_WRITE = 0#32 ∧ (2#32 : BitVec 32) &&& WASI_RIGHT_FD_READ = WASI_RIGHT_FD_READ := by decide
+
+/-! ## All histories -/
+
+/-- **C17** (model level, full strength): over all sequences of WASI calls with any flags and rights on a
+read-only mount, every call that reaches the wrapped file system is from the non-mutating set: a non-mutating
+`sys.FS` method, `OpenFile` with a read-only word, or a non-mutating `sys.File` method. -/
+theorem C17 (ops : List WasiOp) : ∀ c ∈ run ops, c.nonMutating = true := by
+  intro c hc
+  unfold run at hc
+  rw [List.mem_flatMap] at hc
+  obtain ⟨r, _, hr⟩ := hc
+  exact serve_nonMutating r c hr
+
+/-- The same over arbitrary request sequences on the mount (not only those the WASI layer is known to make). -/
+theorem C17_any_client (reqs : List Req) : ∀ c ∈ reqs.flatMap serve, c.nonMutating = true := by
+  intro c hc
+  rw [List.mem_flatMap] at hc
+  obtain ⟨r, _, hr⟩ := hc
+  exact serve_nonMutating r c hr
+
+/-- non-vacuity: a history that does reach the wrapped FS (open for reading, read, stat), and only so. -/
+example : run [.pathOpen 1#16 0#16 0#16 WASI_RIGHT_FD_READ, .fdRead, .pathCreateDirectory, .fdWrite] =
+    [.open O_RDONLY, .file .IsDir, .open O_RDONLY, .file .IsDir, .file .Close, .open O_RDONLY, .file .Read,
+     .open O_RDONLY, .file .IsDir, .open O_RDONLY, .file .IsDir] := by decide
+
+/-! ## Go `fs.FS` mounts (`AdaptFS`) -/
+
+/-- **fsmount_mutating_methods_refused_partial**: on an `fs.FS` mount every mutating `sys.FS` method and the file
+methods `Truncate` and `Utimens` return a constant non-zero errno and call nothing.
+Full statement would add `Write`/`Pwrite`: `fsFile` forwards them to the `fs.File` if it implements
+`io.Writer`/`io.WriterAt` (missing: that files returned by `fs.FS.Open` are not writable — an assumption about the
+mounted `fs.FS`, monitored by the harness for `os.DirFS` and `fstest.MapFS`). -/
+theorem fsmount_mutating_methods_refused_partial :
+    (∀ m ∈ mutatingFS, ∀ fl, serveAdapt (.fs m fl) = []) ∧
+    serveAdapt (.file .Truncate) = [] ∧ serveAdapt (.file .Utimens) = [] := by
+  refine ⟨?_, by decide, by decide⟩
+  intro m hm fl
+  cases m <;> first | rfl | (exact absurd hm (by decide))
+
+/-! ## The declared flag space -/
+
+/-- All declared `Oflag` constants lie in the low 13 bits (the harness enumerates all 2^13 words; the theorems
+above hold for all 2^32). -/
+theorem oflag_space : oflagAllBits.toNat < 2 ^ 13 ∧ oflagConsts.all (fun c => c &&& ~~~oflagAllBits == 0#32) = true := by
+  decide
+
 end Wz.C17
